@@ -395,10 +395,13 @@ def render_fixed(prog, ch, opts=None):
         body = [t for t in toks if t.kind != "label"]
         if body:
             body[0].pre = ""
-        g = ch.choose(1 + len(FIX_COMMENTS) + 1, "fgap")
+        g = ch.choose(1 + len(FIX_COMMENTS) + 2, "fgap")
         if g == 1:
             lay.lines.append("")
             lay.features.add("gap")
+        elif g == len(FIX_COMMENTS) + 2:
+            lay.lines.append("        ")  # a line of blanks (not an empty line)
+            lay.features.add("gap-blanks")
         elif g > 1:
             c = FIX_COMMENTS[g - 2]
             lay.lines.append(c)
@@ -429,8 +432,12 @@ def render_fixed(prog, ch, opts=None):
                 if extra:
                     lay.features.add("wrap:%s|%s" % (_d(body[j - 1]), _d(t)))
                 lay.lines.append(cur)
-                bc = ch.choose(1 + len(FIX_COMMENTS), "fbetween")
-                if bc:
+                bc = ch.choose(1 + len(FIX_COMMENTS) + 2, "fbetween")
+                if bc > len(FIX_COMMENTS):
+                    # an empty line / a line of blanks between the lines of a statement
+                    lay.lines.append("" if bc == len(FIX_COMMENTS) + 1 else "   ")
+                    lay.features.add("between:empty" if bc == len(FIX_COMMENTS) + 1 else "between:blanks")
+                elif bc:
                     c = FIX_COMMENTS[bc - 1]
                     lay.lines.append(c)
                     inner_comments.append((c, len(lay.lines)))
